@@ -302,6 +302,10 @@ pub enum ClientOp {
     SendRepoll { h: u16, work: Vec<Step>, extra: u8 },
     /// `drop(owning.join())`: a join future that is never polled
     JoinDiscard { h: u16 },
+    /// `let j = owning.join(); let plain = owning.detach();` - the join future is kept, unpolled, for a later `AwaitLazy`
+    JoinLazyDetach { h: u16 },
+    /// await the oldest join future this client kept with `JoinLazyDetach`
+    AwaitLazy,
     /// `held_addr.clone().register()`: register an instance the client already holds (possibly the registered one)
     RegisterHeld { h: u16 },
     /// create a join future, poll it once and keep it alive (a stalled `select!` arm) until the client ends
